@@ -203,7 +203,7 @@ pub fn run(ctx: &Ctx) {
                         ctx.class("assignment x entry-set");
                         if nontrivial(assign, entries) {
                             ctx.nontrivial(hash_of(&(assign, entries)));
-                            if idx % 311 == 0 {
+                            if ctx.samples_len() < 2 || idx % 311 == 0 {
                                 ctx.sample(6, || case_json(assign, j, entries, cycles));
                             }
                         }
